@@ -188,6 +188,7 @@ type solveOpts struct {
 	retryS   int
 	seed     int
 	keep     bool
+	known    map[string]bool // obligations registered in known_findings.json: one short attempt, no long retry (see attempt below)
 }
 
 // solveAll decides every obligation of the context. Batch pass with z3-new first, stragglers individually on all solvers.
@@ -294,7 +295,13 @@ func (fc *FnCtx) solveAll(o solveOpts, tag string) {
 				defer func() { <-sem }()
 				f := fmt.Sprintf("%s.%d.smt2", base, i)
 				os.WriteFile(f, []byte(fc.renderOne(ob, true)), 0o644)
-				res := raceSolvers(f, timeoutS, seed, "")
+				t := timeoutS
+				if o.known[ob.Name] && t > 5 {
+					// a registered known finding is reported as KNOWN-FINDING whether the solvers say sat, unknown or time out
+					// (the quantified prelude rarely lets them produce a model): do not spend the straggler budget on it
+					t = 5
+				}
+				res := raceSolvers(f, t, seed, "")
 				if ob.Cover && res.Verdict != "unsat" {
 					// vacuity probe: anything but a refutation passes (quantified backgrounds rarely yield models)
 					res.Attempts = append(res.Attempts, "cover: not refuted ("+res.Verdict+")")
@@ -317,11 +324,11 @@ func (fc *FnCtx) solveAll(o solveOpts, tag string) {
 	attempt(o.quickS, o.seed, map[*Obligation]bool{})
 	undecided := map[*Obligation]bool{}
 	for _, ob := range fc.obls {
-		if ob.Result != nil && ob.Result.Verdict != want(ob) && ob.Result.Verdict != "sat" && ob.Result.Verdict != "unsat" {
+		if ob.Result != nil && ob.Result.Verdict != want(ob) && ob.Result.Verdict != "sat" && ob.Result.Verdict != "unsat" && !o.known[ob.Name] {
 			undecided[ob] = true
 		}
 	}
-	if n := len(undecided); n > 0 && n <= 3 {
+	if n := len(undecided); n > 0 && n <= 8 { // was 3: on a loaded machine a heavy function (storage.finalizeTransaction) has 4-6 quick-tier timeouts that all pass in the retry tier
 		attempt(o.retryS, o.seed+7919, undecided)
 	}
 }
